@@ -196,6 +196,14 @@ pub fn run(ctx: &Ctx, st: &mut Stats) {
             st.eval(&C(&format!("{}YYYY", s)), check);
         }
     });
+    // 3c. well-known whole pictures in every letter-case / blank-run variation (a shortcut for a popular picture must
+    //     still be the token sequence it spells)
+    let nv = ctx.tier.pick(60, 120_000, 2_000_000);
+    ctx.par(st, "well-known pictures x letter-case and blank-run variations", false, 0, nv, |st, i, rng| {
+        let base = crate::spell::WELL_KNOWN[(i % crate::spell::WELL_KNOWN.len() as i64) as usize];
+        let v = if i < crate::spell::WELL_KNOWN.len() as i64 { base.to_string() } else { crate::spell::vary_picture(rng, base) };
+        st.eval_h(hash64(v.as_bytes()), &C(&v), check);
+    });
     // token-count limit: exactly 34..38 tokens of every kind
     for t in TOKENS.iter().filter(|t| !t.starts_with(' ')).step_by(ctx.tier.pick(6, 1, 1)) {
         for n in 30..=40usize {
